@@ -245,7 +245,7 @@ def play_and_check(ctx, draw):
     marks = []
 
     def on_call(p, call, vs, status):
-        if status in ('ok', 'refused'):
+        if status in ('ok', 'refused', 'diverged'):
             marks.append(len(p.all_calls))
     p = hjplay.random_play(draw, on_call, noise=12, nmin=1, lenient=True)
     ctx.label('play')
